@@ -137,7 +137,7 @@ func RaftConfig(dir string, peers []peer.ID, t RaftTune) *raft.Config {
 	cfg.Default()
 	cfg.SetBaseDir(dir)
 	cfg.DataFolder = filepath.Join(dir, "raft")
-	cfg.InitPeerset = peers
+	cfg.InitPeerset = append([]peer.ID{}, peers...) // own copy: raft appends to it
 	cfg.WaitForLeaderTimeout = 15 * time.Second
 	cfg.CommitRetries = 2
 	cfg.CommitRetryDelay = 50 * time.Millisecond
